@@ -1018,4 +1018,98 @@ theorem leafAt_node_cons (m : Meta) (es : Entries V) (k : String) (q : Path) :
   cases es.get? k <;> rfl
 
 
+/-! ### `_validate_value` puts every written nested tensordict on the container's device -/
+
+theorem onDevice_renameAll (d : String) (ns : Option (List String)) (t : Tree V) (h : Tree.onDevice d t) :
+    Tree.onDevice d (Tree.renameAll ns t) := by
+  cases t with
+  | leaf v => simp [Tree.renameAll, Tree.onDevice]
+  | node m es => simpa [Tree.renameAll, Tree.onDevice] using h
+
+theorem onDevice_moveToDevice (d : String) (t : Tree V) : Tree.onDevice d (moveToDevice (some d) t) := by
+  cases t with
+  | leaf v => simp [moveToDevice, Tree.onDevice]
+  | node m es =>
+    simp only [moveToDevice]
+    split
+    · rename_i h; simpa [Tree.onDevice] using h
+    · simp [Tree.setDevice, Tree.onDevice]
+
+theorem validateValue_onDevice (d : String) (rm rm' : Meta) (t t' : Tree V) (hd : rm.device = some d)
+    (h : validateValue false rm t = .ok (rm', t')) : Tree.onDevice d t' ∧ rm'.device = some d := by
+  have hs := validateValue_spec false rm rm' t t' h
+  simp only [validateValue, Bool.false_eq_true, ↓reduceIte, hd] at h
+  obtain ⟨_, _, _, _, h5⟩ := reconcileNames_spec rm rm' _ t' h
+  refine ⟨?_, by rw [hs.2.1, hd]⟩
+  rcases h5 with e | ⟨ns, e⟩
+  · rw [e]; exact onDevice_moveToDevice d t
+  · rw [e]; exact onDevice_renameAll d ns _ (onDevice_moveToDevice d t)
+
+theorem writeOutcomes_onDevice (d : String) (fresh : Tree V) :
+    ∀ (oc : List (String × Option (Tree V))) (m : Meta) (es : Entries V) (r : Option (Tree V)),
+      m.device = some d → (oc.map (·.1)).Nodup → writeOutcomes false fresh (some (.node m es)) oc = .ok r →
+      ∃ m' es', r = some (.node m' es') ∧
+        (∀ k t, List.lookup k oc = some (some t) → ∃ t', es'.get? k = some t' ∧ Tree.onDevice d t') ∧
+        (∀ k, (∀ t, List.lookup k oc ≠ some (some t)) → ∀ t0, es.get? k = some t0 → Tree.onDevice d t0 →
+            ∃ t', es'.get? k = some t' ∧ Tree.onDevice d t')
+  | [], m, es, r, _, _, h => by
+    simp [writeOutcomes] at h; subst h
+    exact ⟨m, es, rfl, fun k t hl => by simp [List.lookup] at hl, fun k _ t0 h0 hd0 => ⟨t0, h0, hd0⟩⟩
+  | (k0, none) :: rest, m, es, r, hd, hnd, h => by
+    simp only [writeOutcomes] at h
+    simp only [List.map_cons, List.nodup_cons] at hnd
+    obtain ⟨m', es', e, h1, h2⟩ := writeOutcomes_onDevice d fresh rest m es r hd hnd.2 h
+    refine ⟨m', es', e, fun k t hl => ?_, fun k hk t0 h0 hd0 => ?_⟩
+    · by_cases hkk : k = k0
+      · subst hkk; simp [List.lookup] at hl
+      · have : (k == k0) = false := by simp [hkk]
+        simp only [List.lookup, this] at hl
+        exact h1 k t hl
+    · by_cases hkk : k = k0
+      · subst hkk
+        have hn : List.lookup k rest = none := by
+          rw [List.lookup_eq_none_iff]; intro p hp
+          simp only [bne_iff_ne, ne_eq]
+          intro e
+          exact hnd.1 (List.mem_map.mpr ⟨p, hp, e.symm⟩)
+        exact h2 k (fun t => by simp [hn]) t0 h0 hd0
+      · have : (k == k0) = false := by simp [hkk]
+        refine h2 k (fun t ht => hk t ?_) t0 h0 hd0
+        simp only [List.lookup, this]; exact ht
+  | (k0, some t) :: rest, m, es, r, hd, hnd, h => by
+    simp only [writeOutcomes, Option.getD_some] at h
+    simp only [List.map_cons, List.nodup_cons] at hnd
+    have hn : List.lookup k0 rest = none := by
+      rw [List.lookup_eq_none_iff]; intro p hp
+      simp only [bne_iff_ne, ne_eq]
+      intro e
+      exact hnd.1 (List.mem_map.mpr ⟨p, hp, e.symm⟩)
+    cases hv : validateValue false m t with
+    | error e => simp [hv] at h
+    | ok p =>
+      obtain ⟨m1, t1⟩ := p
+      simp only [hv] at h
+      obtain ⟨hon, hd1⟩ := validateValue_onDevice d m m1 t t1 hd hv
+      obtain ⟨m', es', e, h1, h2⟩ := writeOutcomes_onDevice d fresh rest m1 _ r hd1 hnd.2 h
+      refine ⟨m', es', e, fun k t' hl => ?_, fun k hk t0 h0 hd0 => ?_⟩
+      · by_cases hkk : k = k0
+        · subst hkk
+          refine h2 k (fun t => by simp [hn]) t1 ?_ hon
+          exact get?_set_same _ k t1
+        · have : (k == k0) = false := by simp [hkk]
+          simp only [List.lookup, this] at hl
+          exact h1 k t' hl
+      · have hkk : k ≠ k0 := by
+          intro e; subst e; exact hk t (by simp [List.lookup])
+        have : (k == k0) = false := by simp [hkk]
+        have hk' : ∀ t', List.lookup k rest ≠ some (some t') := fun t' ht => hk t' (by simp only [List.lookup, this]; exact ht)
+        by_cases hnm : m1.names = m.names
+        · refine h2 k hk' t0 ?_ hd0
+          simp only [hnm, ↓reduceIte]
+          rw [get?_set_other es k0 k t1 hkk]; exact h0
+        · refine h2 k hk' (Tree.renameAll m1.names t0) ?_ (onDevice_renameAll d _ t0 hd0)
+          simp only [hnm, ↓reduceIte]
+          rw [get?_set_other _ k0 k t1 hkk, get?_renameAll, h0]; rfl
+
+
 end TdVerif.C20
